@@ -27,6 +27,7 @@ import (
 
 type params struct {
 	Kind string `json:"kind"` // api | raw | fixed
+	G    int    `json:"g,omitempty"` // > 0: this is goroutine G of a batch that runs four at once
 	Seed int64  `json:"seed"`
 	Idx  int    `json:"idx"`
 	N    int    `json:"n"`
@@ -793,9 +794,21 @@ func fixedCases(c *ctx, r *rand.Rand) {
 func run(cs vrt.Case) vrt.Obs {
 	var p params
 	vrt.Params(cs, &p)
+	if p.Kind != "fixed" && p.Idx%4 == 3 && p.G == 0 {
+		// every fourth batch is worked on by four goroutines at once (a program that builds, serialises and
+		// parses messages from several sessions simultaneously): each goroutine checks its own messages
+		var o vrt.Obs
+		vrt.Parallel(&o, 4, func(g int, po *vrt.Obs) {
+			q := p
+			q.G, q.N = g+1, p.N/4
+			*po = run(vrt.Case{ID: cs.ID, Params: vrt.MustParams(q)})
+		})
+		o.Count("messages_checked_while_other_goroutines_were_at_work", int64(p.N/4*4))
+		return o
+	}
 	var o vrt.Obs
 	c := &ctx{o: &o, seen: map[string]int{}}
-	r := vrt.Rand(p.Seed, "c09", p.Kind, p.Idx)
+	r := vrt.Rand(p.Seed, "c09", p.Kind, p.Idx, p.G)
 	switch p.Kind {
 	case "fixed":
 		vrt.Guard(&o, func() { fixedCases(c, r) })
